@@ -28,7 +28,7 @@ def toDecl (j : Json) : Decl :=
   { isFunc := str j "kind" == "func", tok := if str j "kind" == "func" then "" else str j "tok",
     recv := str j "recv", name := str j "name", doc := txt j "doc", specDoc := txt j "specDoc",
     namedV := str j "namedV", namedE := str j "namedE", hdr := txt j "hdr", inner := txt j "inner",
-    hasBody := boolD j "hasBody" false }
+    hasBody := boolD j "hasBody" false, canon := txt j "canon" }
 
 def toFile (j : Json) : File :=
   { name := str j "name", imports := (arr j "imports").map toImport, decls := (arr j "decls").map toDecl }
@@ -40,7 +40,8 @@ def toAfter (j : Json) : Spec.AfterFile :=
 def toField (j : Json) : Field := ⟨str j "goName", str j "name", str j "file", boolD j "isResolver" false⟩
 def toObj (j : Json) : Obj := ⟨str j "name", str j "file", (arr j "fields").map toField⟩
 
-def toCfg (j : Json) : Cfg := { layout := if str j "layout" == "single" then .single else .follow }
+def toCfg (j : Json) : Cfg :=
+  { layout := if str j "layout" == "single" then .single else .follow, omitTemplateComment := boolD j "omitTemplateComment" false }
 
 def s (t : Text) : Json := Json.str (String.ofList t)
 
@@ -94,7 +95,8 @@ def chk (j : Json) : Json :=
 def genJson : Json :=
   Json.mkObj [("bodyStartOff", bodyStartOff), ("bodyEndOff", bodyEndOff), ("skipCopied", skipCopied),
               ("skipToks", Json.arr (skipToks.map Json.str).toArray), ("declSep", declSep),
-              ("trimRemaining", trimRemaining), ("trailerMode", toString (repr trailerMode))]
+              ("trimRemaining", trimRemaining), ("trailerMode", toString (repr trailerMode)),
+              ("aliasOmitRule", toString (repr aliasOmitRule))]
 
 def step (line : String) : String :=
   let (op, rest) := match line.splitOn " " with
